@@ -136,6 +136,12 @@ def gen_texts(seed, tier):
     for r in ['txn', 'field', 'TXN', 'Field', 'rows[0]', 'description', 'rows', 'threshold']:
         for a in ctx_names:
             texts += [f'{r}["{a}"]', f'{r}[" {a.upper()} "]', f'trim({r}["{a}"])', f'{r}["{a}"]()', f'"%s" % {r}["{a}"]']
+    # comparisons of dates with ISO string literals (the evaluator coerces the literal: it must not write the parsed date back
+    # into the cached expression tree or into the rows), on the transaction date and on supplemental rows
+    for lit in ['"2025-01-01"', '"2025-02-28"', '"2025-02-27"', '"not-a-date"']:
+        for op in ['==', '!=', '<', '<=', '>', '>=']:
+            texts += [f'date {op} {lit}', f'txn.date {op} {lit}', f'{lit} {op} date', f'[r for r in rows if r.date {op} {lit}]',
+                      f'any(r.date {op} {lit} for r in rows)', f'date {op} {lit} {op} {lit}']
     # node kinds x positions, depth 2
     for s in NODE_SNIPPETS:
         for c in CONTEXTS:
